@@ -1010,6 +1010,13 @@ class Scene(Geometry3D):
         graph.from_edgelist(edges)
 
         geometry_names = {e[2]["geometry"] for e in edges if "geometry" in e[2]}
+        # geometry is exported on the edge leading *into* a node so the
+        # geometry of the requested node itself has to be carried over
+        root_geometry = self.graph.transforms.node_data[node].get("geometry")
+        if root_geometry is not None:
+            graph.transforms.node_data[node]["geometry"] = root_geometry
+            graph.transforms._hash = None
+            geometry_names.add(root_geometry)
         geometry = {k: self.geometry[k] for k in geometry_names}
         result = Scene(geometry=geometry, graph=graph)
         return result
